@@ -3,6 +3,8 @@ pub mod c01;
 pub mod c02;
 pub mod c03;
 pub mod c04;
+pub mod c05;
+pub mod c16;
 pub mod c20;
 pub mod evalutil;
 
@@ -12,6 +14,8 @@ pub fn lookup(id: &str) -> Option<&'static dyn Prop> {
         "C02" => &c02::C02,
         "C03" => &c03::C03,
         "C04" => &c04::C04,
+        "C05" => &c05::C05,
+        "C16" => &c16::C16,
         "C20" => &c20::C20,
         _ => return None,
     })
